@@ -2,7 +2,7 @@
     and the finite maps / sets of the model, and decidable equalities.  Used
     only by the correspondence check; no theorem depends on this file. *)
 From Crdt Require Import spec.System model.VClock model.Simple model.Orswot model.MVReg model.Map
-  model.Identifier model.List model.Merkle proofs.MerkleInv proofs.Merkle proofs.ListIndex.
+  model.Identifier model.List model.Merkle proofs.MerkleInv proofs.Merkle proofs.ListIndex model.Serde.
 
 Definition vc_of_list (l : list (N * N)) : gmap N N := list_to_map l.
 Definition vc_to_list (c : gmap N N) : list (N * N) := map_to_list c.
@@ -53,3 +53,16 @@ Definition merkle_spec (hash : mnode → N) (ns : list mnode) : merkle := spec_s
 
 Definition vec_insert_at (i : nat) (x : N) (l : list N) : list N := insert_at i x l.
 Definition vec_remove_at (i : nat) (l : list N) : list N := remove_at i l.
+
+(** serde codec model: instances used by the correspondence check *)
+Definition codec_mapmv := cmap_codec mvreg_codec.
+Definition codec_mapor := cmap_codec orswot_codec.
+Definition codec_mapmm := cmap_codec (cmap_codec mvreg_codec).
+Definition codec_glist := glist_codec z_codec.
+Definition codec_list := clist_codec z_codec.
+Fixpoint json_size (j : json) : nat :=
+  match j with
+  | JArr l => S (foldr (λ x acc, json_size x + acc)%nat O l)
+  | JObj l => S (foldr (λ x acc, json_size x.2 + acc)%nat O l)
+  | _ => 1%nat
+  end.
